@@ -1,5 +1,5 @@
 """property -> rules"""
-from . import rules_dd, rules_bounds, rules_limits, rules_tools, rules_conv, rules_handles, rules_access, rules_coders
+from . import rules_dd, rules_bounds, rules_limits, rules_tools, rules_conv, rules_handles, rules_access, rules_coders, rules_errors
 
 CLANG = "clang 14 parser, constant evaluator and CFG builder (via tools/h4x.cc)"
 CDB = "compile flags taken from ninja -t compdb of /repo/_build (or a throw-away cmake configure)"
@@ -106,6 +106,17 @@ PROPS["C14"] = {
 
 PROPS["C05"] = {
     "rules": [rules_coders.rule_comp_header, rules_coders.rule_coder_dispatch, rules_coders.rule_coder_flush, rules_coders.rule_stream_seek],
+    "level": "other",
+    "explanation": "TODO",
+    "rule_text": "TODO",
+    "trusted": [CLANG, CDB],
+    "assumptions": [],
+    "level_text": "TODO", "level_note": "TODO", "technique": "TODO",
+}
+
+PENDING = {}
+PENDING["C16"] = {
+    "rules": [rules_errors.rule_F4],
     "level": "other",
     "explanation": "TODO",
     "rule_text": "TODO",
